@@ -64,3 +64,90 @@ Proof.
   - rewrite Hs. cbn. now rewrite cond_eqb_refl'.
   - rewrite Hs, Hg, Z.eqb_refl. cbn. apply orb_true_r.
 Qed.
+
+(** ** Keys and phase indices as the monitors compute them *)
+Lemma all_keys_eq m : all_keys m = flat_map (phase_keys (as_owner m)) (local_phases m).
+Proof. reflexivity. Qed.
+
+Lemma keys_nodup_iff m : SetMonitors.keys_nodup m = true <-> desired_keys_nodup m.
+Proof.
+  unfold SetMonitors.keys_nodup, desired_keys_nodup. rewrite all_keys_eq. split.
+  - apply (nodupb_spec okey_eqb okey_eqb_spec).
+  - apply (nodupb_complete okey_eqb okey_eqb_spec).
+Qed.
+
+Lemma existsb_okey k l : existsb (okey_eqb k) l = true <-> In k l.
+Proof.
+  rewrite existsb_exists. split.
+  - intros (y & Hy & E). apply okey_eqb_spec in E. now subst y.
+  - intros H. exists k. split; [exact H|apply okey_eqb_refl].
+Qed.
+
+(** with pairwise distinct keys, the first local phase naming a key is the only one *)
+Lemma phase_index_found m phs k ph : forall i,
+  NoDup (flat_map (pkeys m) phs) -> In ph phs -> In k (pkeys m ph) ->
+  exists j, phase_index m phs k i = Some (i + j)%nat /\ nth_error phs j = Some ph.
+Proof.
+  induction phs as [|ph0 rest IH]; intros i Hnd Hin Hk; [contradiction|]. cbn [phase_index].
+  cbn in Hnd. destruct (existsb (okey_eqb k) (pkeys m ph0)) eqn:E.
+  - apply existsb_okey in E. destruct Hin as [<-|Hin]; [exists O; split; [f_equal; lia|reflexivity]|].
+    exfalso. eapply NoDup_app_disj; [exact Hnd|exact E|]. apply in_flat_map. eauto.
+  - destruct Hin as [<-|Hin]; [apply existsb_okey in Hk; congruence|].
+    destruct (IH (S i) (NoDup_app_r _ _ Hnd) Hin Hk) as (j & Hj & Hn). exists (S j). split; [rewrite Hj; f_equal; lia|exact Hn].
+Qed.
+
+Lemma written_by_local m e : written_by (as_owner m) (os_phases m) e ->
+  exists ph, In ph (locals m) /\ In (ev_key e) (pkeys m ph) /\
+             (forall p, In p (ph_objects ph) -> preflight_obj FObjectSet (as_owner m) false p = []).
+Proof.
+  intros (ph & Hin & Hc & Hk & Hp). exists ph. split; [|split; [exact Hk|exact Hp]].
+  unfold locals. apply filter_In. split; [exact Hin|]. now rewrite Hc.
+Qed.
+
+(** ** The three kinds of pass *)
+Lemma target_kind m :
+  (cond_true (os_conds m) CArchived = true /\ is_activeb m = false /\ is_goingb m = false) \/
+  (is_goingb m = true /\ is_activeb m = false /\ is_going m) \/
+  (is_activeb m = true /\ is_goingb m = false /\ is_active m).
+Proof.
+  unfold is_activeb, is_goingb, is_going, is_active.
+  destruct (cond_true (os_conds m) CArchived); [left; auto|right]. cbn [negb andb].
+  destruct (os_deleting m); [left; cbn; auto|]. cbn [negb andb orb].
+  destruct (lifecycle_eqb (os_life m) LArchived) eqn:E; [left|right]; cbn.
+  - apply lifecycle_eqb_spec in E. auto.
+  - repeat split; auto. intros El. rewrite El in E. discriminate.
+Qed.
+
+Lemma model_archived c m sw e r :
+  find_set (sc_sets c) (sc_kind c) (sc_ns c) (sc_name c) = Some m -> cond_true (os_conds m) CArchived = true ->
+  SetCorr.model_run c = (sw, e, r) -> sw = sc_world c /\ e = [] /\ r = SNothing.
+Proof.
+  intros Hf Ha E. unfold SetCorr.model_run in E.
+  rewrite (C06_archived_not_reconciled (sc_force c) (sc_world c) _ _ _ _ Hf Ha) in E. injection E as <- <- <-. auto.
+Qed.
+
+(** ** m11 *)
+Theorem m11_sound (c : scase) : m11 (set_obs_s c (SetCorr.model_run c)) = true.
+Proof.
+  unfold m11. rewrite target_model. destruct (SetCorr.model_run c) as [[sw e] r] eqn:E.
+  destruct (find_set (sc_sets c) (sc_kind c) (sc_ns c) (sc_name c)) as [m|] eqn:Ef; [|reflexivity].
+  rewrite members_model. unfold SetCorr.model_run in E.
+  apply andb_true_iff. split; [apply andb_true_iff; split|].
+  - (* the same object twice: no member request *)
+    destruct (is_activeb m) eqn:Ha; [|reflexivity]. cbn [negb orb].
+    destruct (SetMonitors.keys_nodup m) eqn:Hk; [reflexivity|]. cbn [orb].
+    destruct (active_members_written (sc_force c) (sc_world c) _ _ _ m sw e r Ef (is_activeb_spec m Ha) E) as [->|[Hnd _]]; [reflexivity|].
+    apply keys_nodup_iff in Hnd. congruence.
+  - (* namespace bound, every kind of pass *)
+    destruct (oi_ns (os_id m) =? 0) eqn:Hns; [reflexivity|]. cbn [orb]. apply N.eqb_neq in Hns.
+    pose proof (pass_members_ns (sc_force c) (sc_world c) _ _ _ m sw e r Ef E) as Hb.
+    apply forallb_forall. intros x Hx. rewrite Forall_forall in Hb. destruct (Hb x Hx Hns) as [-> ->].
+    cbn. now rewrite N.eqb_refl.
+  - (* preflight gate *)
+    destruct (is_activeb m) eqn:Ha; [|reflexivity]. cbn [negb orb].
+    destruct (active_members_written (sc_force c) (sc_world c) _ _ _ m sw e r Ef (is_activeb_spec m Ha) E) as [->|[Hnd Hw]]; [reflexivity|].
+    apply forallb_forall. intros x Hx. rewrite Forall_forall in Hw.
+    destruct (written_by_local m x (Hw x Hx)) as (ph & Hin & Hk & Hp).
+    destruct (phase_index_found m (locals m) (ev_key x) ph O Hnd Hin Hk) as (j & Hj1 & Hj2). cbn [plus] in Hj1. rewrite Hj1, Hj2.
+    apply forallb_forall. intros p Hpi. now rewrite (Hp p Hpi).
+Qed.
